@@ -7,7 +7,7 @@ cd /verif
 prop="$1"; mode="${2:-quick}"
 mkdir -p .work bin
 exe=".work/check-$$"
-trap 'rm -f "$exe" ".work/alt-$$.mod" ".work/alt-$$.sum" ".work/check-race-$$"' EXIT
+trap 'rm -f "$exe" ".work/alt-$$.mod" ".work/alt-$$.sum" ".work/check-race-$$" ".work/check-shim-$$"; rm -rf ".work/ov-$$"' EXIT
 modflag=""
 if [ -n "${VERIF_REPO:-}" ] && [ "$VERIF_REPO" != "/repo" ]; then
   # development aid only (seeded-defect evaluation in a scratch worktree): the registered commands never set VERIF_REPO
@@ -20,6 +20,16 @@ if ! go build $modflag -o "$exe" ./cmd/check 2> ".work/build-$$.log"; then
   exit 2
 fi
 rm -f ".work/build-$$.log"
+if [ "$prop" = "C17" ]; then
+  # shimmed twin: package sync replaced (go build -overlay, /repo untouched) in the two files that fan out goroutines, so that
+  # the goroutine epilogues become scheduling points; regenerated from the current tree on every run
+  repo_dir="${VERIF_REPO:-/repo}"
+  nshim=$(python3 tools/mk_overlay.py "$repo_dir" ".work/ov-$$" 2>/dev/null || echo 0)
+  if [ "$nshim" -ge 1 ] && go build $modflag -tags verifshim -overlay ".work/ov-$$/overlay.json" -o ".work/check-shim-$$" ./cmd/check 2> ".work/shimbuild-$$.log"; then
+    export VERIF_SHIM_BIN="/verif/.work/check-shim-$$"
+  fi
+  rm -f ".work/shimbuild-$$.log"
+fi
 if [ "$prop" = "C17" ] && [ "$mode" != "replay" ]; then
   # the free-running race pass needs the -race twin, rebuilt from the current tree
   # (its own file per invocation: concurrent runs against other trees must not share it)
@@ -27,7 +37,12 @@ if [ "$prop" = "C17" ] && [ "$mode" != "replay" ]; then
 fi
 case "$mode" in
   quick|thorough) "$exe" -prop "$prop" -tier "$mode"; rc=$? ;;
-  replay) "$exe" -prop "$prop" -replay "$3"; rc=$? ;;
+  replay)
+    if [ "$prop" = "C17" ] && grep -q '"scenario": "C17S-' "$3" 2>/dev/null && [ -n "${VERIF_SHIM_BIN:-}" ]; then
+      "$VERIF_SHIM_BIN" -prop C17S -replay "$3" | sed 's/property=C17S/property=C17/'; rc=${PIPESTATUS[0]}
+    else
+      "$exe" -prop "$prop" -replay "$3"; rc=$?
+    fi ;;
   *) echo "unknown mode $mode" >&2; rc=2 ;;
 esac
 exit $rc
